@@ -75,6 +75,24 @@ func genCase(t *rapid.T) aggh.XCase {
 		c.Flows[i].CorrS.IngAct = uint8(rapid.IntRange(0, 2).Draw(t, "ing_s"))
 		c.Flows[i].CorrD.IngAct = uint8(rapid.IntRange(0, 2).Draw(t, "ing_d"))
 	}
+	// exporters of different versions: one node's template lacks some of the elements that describe
+	// the other end
+	for i := 0; i < 2; i++ {
+		if rapid.IntRange(0, 2).Draw(t, "omit_s") == 0 {
+			for _, n := range aggh.OmittableS {
+				if rapid.IntRange(0, 2).Draw(t, "omit_s_el") == 0 {
+					c.Flows[i].OmitS = append(c.Flows[i].OmitS, n)
+				}
+			}
+		}
+		if rapid.IntRange(0, 2).Draw(t, "omit_d") == 0 {
+			for _, n := range aggh.OmittableD {
+				if rapid.IntRange(0, 2).Draw(t, "omit_d_el") == 0 {
+					c.Flows[i].OmitD = append(c.Flows[i].OmitD, n)
+				}
+			}
+		}
+	}
 	// a fourth flow whose source node's exporter has no destinationPodName element and whose
 	// destination node never reports: however often the source node repeats itself, the flow stays
 	// withheld until its retries are used up
@@ -108,7 +126,7 @@ func TestC07(t *testing.T) {
 		st := &aggh.XStats{}
 		f := aggh.RunX(c, st)
 		var cl []string
-		for k, b := range map[string]bool{"correlated_flow_exported": st.Correlated, "retry_round_then_peer": st.RetryThenPeer, "uncorrelated_dropped": st.DroppedUncorrelated, "both_arrival_orders": st.BothOrders, "failing_callback": st.FailingCallback, "nodes_use_different_element_order": c.LayoutS != c.LayoutD, "correlating_record_refused": st.IncompleteCorrelating, "max_retries_setting_changed": c.MaxRetries != nil && *c.MaxRetries != 2, "process_without_aggregate_elements": c.NoAggregation} {
+		for k, b := range map[string]bool{"correlated_flow_exported": st.Correlated, "retry_round_then_peer": st.RetryThenPeer, "uncorrelated_dropped": st.DroppedUncorrelated, "both_arrival_orders": st.BothOrders, "failing_callback": st.FailingCallback, "nodes_use_different_element_order": c.LayoutS != c.LayoutD, "correlating_record_refused": st.IncompleteCorrelating, "max_retries_setting_changed": c.MaxRetries != nil && *c.MaxRetries != 2, "process_without_aggregate_elements": c.NoAggregation, "exporters_with_different_templates": len(c.Flows[0].OmitS)+len(c.Flows[0].OmitD)+len(c.Flows[1].OmitS)+len(c.Flows[1].OmitD) > 0} {
 			if b {
 				cl = append(cl, k)
 			}
